@@ -30,6 +30,7 @@ def run(ctx):
     ctx.step(wake, ctx)
     ctx.step(arrive, ctx)
     ctx.step(common.raii_only, ctx, "C09.raii", ["Barrier.hpp"], floor=2)
+    ctx.step(initial, ctx)
 
 
 def _writes(f, field):
@@ -203,3 +204,19 @@ def arrive(ctx):
                                           for p_, _k in pts)
                 ctx.ob(rid, ok, f.where, "wait_and_drop lowers threshold_ before counting its arrival (test and reset see the new threshold)",
                        "" if ok else "threshold_ is not decremented exactly once before the arrival", fn=f.label, inst=f.qname)
+
+
+def initial(ctx):
+    rid = "C09.initial"
+    ctx.rule(rid, "a new Barrier expects exactly 'count' arrivals in its first generation (count_ and threshold_ both "
+             "start from the constructor argument)", floor=2)
+    for f in ctx.fb.functions(rec=CLS):
+        if f.kind != "ctor" or f.defaulted or len(f.params) != 1:
+            continue
+        ini = {i.get("field"): f.s(i.get("init")) for i in f.inits if i.get("field")}
+        for fld in ("threshold_", "count_"):
+            p = path(f, ini.get(fld)) if ini.get(fld) is not None else None
+            ok = p in ("p:" + f.params[0]["name"], "this.threshold_")
+            ctx.ob(rid, ok, f.where, "%s starts from the participant count" % fld, "" if ok else "initialised from %s" % p,
+                   fn=f.label, inst=f.qname)
+    ctx.step(common.init_order, ctx, "C09.init", [CLS], floor=2)
